@@ -402,6 +402,14 @@ func c18MalformedPK(r *mon.Run, keyName, doc, scratch string) {
 		muts = append(muts, xmlMut{"modulus of 512 bits", strings.Replace(doc, m[0], "<n>"+pow2(511).String()+"</n>", 1), true},
 			xmlMut{"modulus of 1025 bits", strings.Replace(doc, m[0], "<n>"+add(pow2(1024), bi(1)).String()+"</n>", 1), true},
 			xmlMut{"modulus zero", strings.Replace(doc, m[0], "<n>0</n>", 1), true})
+		// just below and above every supported length (a length test that rounds to bytes, or compares the wrong way round)
+		for _, ln := range []uint{1024, 2048, 4096} {
+			for _, dl := range []int{-9, -8, -7, -4, -1, 1, 7, 8} {
+				bitsN := uint(int(ln) + dl)
+				v := add(pow2(bitsN-1), bi(12345)) // exactly bitsN bits
+				muts = append(muts, xmlMut{fmt.Sprintf("modulus of %d bits", bitsN), strings.Replace(doc, m[0], "<n>"+v.String()+"</n>", 1), true})
+			}
+		}
 	}
 	muts = append(muts, xmlMut{"empty document", "", true}, xmlMut{"not xml", "hello", true}, xmlMut{"truncated", doc[:len(doc)/2], true},
 		xmlMut{"other root element", strings.Replace(strings.Replace(doc, "IssuerPublicKey", "IssuerPrivateKey", -1), "", "", 0), true})
@@ -434,6 +442,8 @@ func c18MalformedPK(r *mon.Run, keyName, doc, scratch string) {
 					bad = "a mandatory element is negative or zero"
 				case got.Params == nil:
 					bad = "no system parameters for this modulus length"
+				case got.Params.Ln != uint(got.N.BitLen()):
+					bad = fmt.Sprintf("system parameters of length %d for a modulus of %d bits", got.Params.Ln, got.N.BitLen())
 				}
 				for i, b := range got.R {
 					if b == nil || b.Sign() < 0 {
